@@ -28,6 +28,9 @@ they are two functions or one told its role by a constant argument.
 Round 5: (i) the deferred-expression evaluator keeps nothing between evaluations (C09-d); (j)
 generated drivers index pkt.get_fields() of the packet at hand; (g) late binding looks at the
 fate of the closure.
+
+Round 6: (k) the structural unpackers keep no state on the field object; closures handed to a
+function that keeps them; normaliser kinds from path facts with converting helpers followed.
 """
 import ast
 
